@@ -710,7 +710,10 @@ impl<const K: u8> Probe<K> {
                 }
             }
             Action::Broadcast { ty, id } => {
-                if ty == 1 {
+                if ty == 0 {
+                    // (the unit message: what children held with add_child are registered for)
+                    ctx.send_to_children(());
+                } else if ty == 1 {
                     ctx.send_to_children(Bc1(id));
                 } else {
                     ctx.send_to_children(Bc2(id));
